@@ -156,6 +156,7 @@ func c06(p *P) {
 		}
 	}
 
+	p.gHandleDecisionAlarm("C06.R1")
 	// ---------------- R2 / R3 (receiveOne)
 	if ro := p.fn("C06.R2", inst+"receiveOne"); ro != nil {
 		type carry struct {
